@@ -307,7 +307,7 @@ func (m c10) Run(c *fw.Ctx) {
 		c.Exhaustive(fmt.Sprintf("slice*;concat on Universe(L=%d,arity<=2) x all cut sets of <=4 cuts", L))
 	}
 	r := c.Rng
-	N := c.Pick(15000, 120000)
+	N := c.Pick(15000, 500000)
 	for it := 0; it < N; it++ {
 		c.NextOwn()
 		L := 2 + r.Intn(59)
